@@ -428,6 +428,21 @@ def run(job):
                 res.count("last_change_sub_types_swept")
                 judge(res, cfg, steps, out, name.split(":")[0] + "-sweep")
                 res.nontrivial((name, "after-tick", ext, fl, v))
+            # smart sleep: the controller's desired value has been saved by a periodic save, then the node's report - equal to
+            # the desired value (the usual confirmation) or another one - is the last change before stop()
+            if v >= "2.0":
+                wake = "1;255;3;0;32;500" if v >= "2.2" else "1;255;3;0;22;1"
+                for k, (variant, rep) in enumerate([("confirms-desired", "21.5"), ("reports-another", "20.0"), ("repeats-old", "19.5")]):
+                    for ext in ("json", "pickle"):
+                        cfg = {"version": v, "flavour": fl, "ext": ext, "callback": (k + len(ext)) % 2 == 0}
+                        steps = prefix + [["in", "1;1;1;0;0;19.5"], ["in", wake], ["set", 1, 1, 0, "21.5"], ["tick"],
+                                          ["in", f"1;1;1;0;0;{rep}"], ["stop"]]
+                        out = run_one(cfg, steps, tmp)
+                        res.evals += 1
+                        res.count("last_change_cases")
+                        res.count("last_change_reports_of_a_sleeping_node")
+                        judge(res, cfg, steps, out, "sleeping-node-report:" + variant)
+                        res.nontrivial(("sleeping-node-report", variant, ext, fl, v))
             # a second gateway with a persistence file of its own in the same process saves between this gateway's last
             # change and its stop()
             from ..drive import projection, strict
@@ -545,7 +560,8 @@ def finish(agg, tier):
         "rule": "(a) bounded-exhaustive: every handler kind that changes persisted state (node/child presentation, set, battery, "
                 "sketch name/version, heartbeat, id request, re-presentation) as the last change before stop(), with 0/1/2 save "
                 "ticks before it or one after it, x format x flavour x version; every presentation type and every value type of the version on its own as the "
-                "only change after the last periodic save; each handler kind again while a second gateway of the process, with a persistence file of its own, "
+                "only change after the last periodic save; for 2.x the report of a smart-sleep node (confirming the controller's pending desired value, another "
+                "value, or the old value) as the last change after a periodic save that followed set_child_value; each handler kind again while a second gateway of the process, with a persistence file of its own, "
                 "does a periodic save or its stop() between the change and this gateway's stop(); (b) random lock-step histories with ticks and "
                 "restarts at arbitrary positions ended by the real stop(); in a quarter of them the device sends one more state-changing "
                 "line while stop() runs (right after a save completes, delivered only if the transport is still open), and in another quarter (threaded flavour) "
@@ -558,6 +574,7 @@ def finish(agg, tier):
                 "state-changing kind, tick pattern, format, flavour, version/history).",
         "floors": [("stops_judged", c.get("stops_judged", 0), 2000), ("last_change_cases", c.get("last_change_cases", 0), 600),
                    ("ticks", c.get("ticks", 0), 1500), ("last_change_sub_types_swept", c.get("last_change_sub_types_swept", 0), 500),
+                   ("last_change_reports_of_a_sleeping_node", c.get("last_change_reports_of_a_sleeping_node", 0), 30),
                    ("two_gateway_cases", c.get("two_gateway_cases", 0), 300), ("stops_with_a_late_line", c.get("stops_with_a_late_line", 0), 150),
                    ("stops_during_a_tick", c.get("stops_during_a_tick", 0), 100),
                    ("real_thread_runs", c.get("real_thread_runs", 0), 6),
